@@ -232,7 +232,8 @@ def run_impl(case):
             seen.append(key)
             return await orig_set(key, value, *a, **k)
         mem.set = spy_set
-        dec = cache(ttl=100)(fn) if mode == "decor" else None
+        # (every other decorated case goes through the time_condition wrapper, which must keep the function's signature and name)
+        dec = (cache(ttl=100, time_condition=-1)(fn) if len(params) % 2 else cache(ttl=100)(fn)) if mode == "decor" else None
         if method:
             from cashews import noself
             dec = noself(cache)(ttl=100)(fn)
